@@ -211,3 +211,29 @@ add('C07', 'guesser-strips-line', GIO, "                split_values = line.rstr
 add('C07', 'omen-reader-rstrip-whitespace', OIOF, "                line = line.rstrip('\\n\\r').split('\\t')", "                line = line.rstrip().split('\\t')", 'fire', 'C07.R5')
 add('C07', 'no-wipe-for-empty-category', 'lib_trainer/save_pcfg_data.py', "    try:\n        for root, dirs, files in os.walk(folder):", "    if not counter_list:\n        return True\n\n    try:\n        for root, dirs, files in os.walk(folder):", 'fire', 'C07.R6')
 add('C07', 'omen-prob-file-renamed-on-reader', GIO, 'full_path = os.path.join(base_directory, "Omen", "pcfg_omen_prob.txt")', 'full_path = os.path.join(base_directory, "Omen", "omen_prob.txt")', 'fire', 'C07.R7')
+
+# ---- C06 ------------------------------------------------------------------------------------------------------
+CPF = 'lib_trainer/calculate_probabilities.py'
+RTF = 'lib_trainer/run_trainer.py'
+add('C06', 'divide-by-number-of-items', CPF, "    total_count = sum(counter.values())", "    total_count = len(counter)", 'fire', 'C06.R1')
+add('C06', 'items-order', CPF, "    prob_list = counter.most_common()", "    prob_list = list(counter.items())", 'fire', 'C06.R1')
+add('C06', 'coverage-N-times-c', RTF, "markov_instances = (num_valid_passwords / program_info['coverage']) - num_valid_passwords", "markov_instances = (num_valid_passwords * program_info['coverage']) - num_valid_passwords", 'fire', 'C06.R4')
+add('C06', 'coverage-equivalent-form', RTF, "markov_instances = (num_valid_passwords / program_info['coverage']) - num_valid_passwords", "markov_instances = num_valid_passwords * (1 / program_info['coverage'] - 1)", 'silent')
+add('C06', 'coverage-guard-on-zero', RTF, "    if program_info['coverage'] != 1:\n", "    if program_info['coverage'] != 0:\n", 'fire', 'C06.R4')
+add('C06', 'unsupported-counted', PARS, "        if is_supported:\n            self.count_base_structures[base_structure] += 1", "        self.count_base_structures[base_structure] += 1", 'fire', 'C06.R5')
+add('C06', 'supported-flag-last-wins', 'lib_trainer/base_structure.py', "        if section[1][0] in ['W','E']:\n            is_supported = False", "        is_supported = section[1][0] not in ['W','E']", 'fire', 'C06.R5')
+add('C06', 'no-wipe', SPD, "            for filename in files:\n                os.unlink(os.path.join(root, filename))", "            for filename in files:\n                pass", 'fire', 'C06.R3')
+add('C06', 'timestamp-in-config', CFG_, '    config.set(section, "uuid", str(uuid.uuid4()))', '    config.set(section, "uuid", str(uuid.uuid4()))\n    import time\n    config.set(section, "trained_at", str(time.time()))', 'fire', 'C06.R6')
+add('C06', 'write-skips-rare-items', SPD, "            for item in prob_list:\n                datafile.write(", "            for item in prob_list:\n                if item[1] < 1e-9:\n                    continue\n                datafile.write(", 'fire', 'C06.R2')
+
+# ---- C19 ------------------------------------------------------------------------------------------------------
+add('C19', 'third-pass-without-prefixcount', RTF, "    # Perform third loop through training data\n    # Re-Initialize the file input to read passwords from\n    file_input = TrainerFileInput(\n                    program_info['training_file'], \n                    program_info['encoding'],\n                    program_info['prefixcount'])",
+    "    # Perform third loop through training data\n    # Re-Initialize the file input to read passwords from\n    file_input = TrainerFileInput(\n                    program_info['training_file'], \n                    program_info['encoding'])", 'fire', 'C19.R1')
+add('C19', 'strip-both-ends', TFI, "clean_password = password.rstrip('\\r\\n')", "clean_password = password.strip()", 'fire', 'C19.R3')
+add('C19', 'rstrip-whitespace', TFI, "clean_password = password.rstrip('\\r\\n')", "clean_password = password.rstrip()", 'fire', 'C19.R3')
+add('C19', 'rstrip-lf-only-arg-order', TFI, "clean_password = password.rstrip('\\r\\n')", "clean_password = password.rstrip('\\n\\r')", 'silent')
+add('C19', 'count-plus-one', TFI, "                self.num_passwords += n\n", "                self.num_passwords += 1\n", 'fire', 'C19.R3')
+add('C19', 'prefix-split-whitespace', TFI, "clean_password = ' '.join(clean_password.lstrip().split(' ')[1:])", "clean_password = clean_password.lstrip().split(None, 1)[1]", 'fire', 'C19.R3')
+add('C19', 'hex-decoded-as-utf8', TFI, "bytes.fromhex(clean_password[5:-1]).decode(self.encoding)", "bytes.fromhex(clean_password[5:-1]).decode('utf-8')", 'fire', 'C19.R3')
+add('C19', 'bad-count-raises', TFI, "                    except ValueError:\n                        continue", "                    except ValueError:\n                        raise", 'fire', 'C19.R4')
+add('C19', 'invalid-line-ends-pass', TFI, "                if not check_valid(clean_password):\n                    continue", "                if not check_valid(clean_password):\n                    break", 'fire', 'C19.R4')
